@@ -248,6 +248,30 @@ def run_case(case):
                 bad("%s raises %s on a refilled buffer" % (mm, type(ex).__name__), "batch buffer refilled in place", "%s %s" % (str(ex)[:200], desc0))
                 continue
             compare(mm, rev, got, "batch buffer refilled in place")
+    # the same batch as a scipy.sparse matrix where the method accepts one (a column that is zero in the whole batch has no stored entry)
+    if kind in ("reg", "clf", "cluster", "poly", "nmf"):
+        import scipy.sparse
+        Pz = numpy.array(P, copy=True)
+        Pz[:, -1] = 0.0
+        Pz[0, :] = 0.0
+        for mm in methods:
+            try:
+                dense = _call(est, mm, Pz, kind)
+            except Exception:
+                continue
+            for fmt in ("csr", "csc"):
+                try:
+                    sp_ = _call(est, mm, scipy.sparse.csr_matrix(Pz) if fmt == "csr" else scipy.sparse.csc_matrix(Pz), kind)
+                    one = _call(est, mm, scipy.sparse.csr_matrix(Pz[1:2]), kind)
+                except Exception:
+                    continue          # sparse input not supported by this method: not this property's business
+                cnt += 1
+                ok_ = (sp_.shape == dense.shape and (numpy.allclose(sp_.astype(float), dense.astype(float), rtol=1e-9, atol=1e-12, equal_nan=True)
+                                                     if sp_.dtype.kind in "fiub" and dense.dtype.kind in "fiub" else numpy.array_equal(sp_.astype(str), dense.astype(str))))
+                ok1 = (one.shape[0] == 1 and (numpy.allclose(one.astype(float), dense[1:2].astype(float), rtol=1e-9, atol=1e-12, equal_nan=True)
+                                              if one.dtype.kind in "fiub" and dense.dtype.kind in "fiub" else numpy.array_equal(one.astype(str), dense[1:2].astype(str))))
+                if not (ok_ and ok1) and 1 not in ties and 0 not in ties:
+                    bad("%s: a row's output depends on the rest of the batch" % mm, "sparse batch (%s)" % fmt, desc0)
     # the same batch (same values) stored behind other memory layouts: a row is its values, not where they are kept
     if kind in ("reg", "clf", "cluster", "poly", "nmf", "recip"):
         for lname, Pl in K.layouts(P)[1:]:
